@@ -117,7 +117,7 @@ def block_lines(m, src):
 
 
 FINDING_TAGS = {'setext-in-quote', 'lazy-after-indented-quote-content', 'table-on-marker-line', 'item-begins-with-blank-line',
-                'lazy-after-nonpara', 'quote-begins-with-blank-line'}
+                'lazy-after-nonpara', 'quote-begins-with-blank-line', 'tab-stop-relative-to-container'}
 
 
 def roundtrip_records(ck, m, record):
@@ -154,7 +154,8 @@ def reflow_documents(ck, m):
     docs = concretise(simulate(ck, 'DocGenSim.cfg', 4000 if ck.tier == 'quick' else 60000))
     out = []
     for d in dedupe(docs):
-        if set(d['tags']) & {'setext-in-quote', 'lazy-after-indented-quote-content', 'table-on-marker-line', 'item-begins-with-blank-line'}:
+        if set(d['tags']) & {'setext-in-quote', 'lazy-after-indented-quote-content', 'table-on-marker-line', 'item-begins-with-blank-line',
+                            'tab-stop-relative-to-container', 'lazy-after-nonpara'}:
             continue          # documents of a recorded finding (parser or Markdown renderer) do not mean what they say
         if _CHARREF.search(d['src']) or 'title-like-word-after-definition' in d['tags']:
             continue          # a first word that reads as a link title once it stands alone on the line after a definition: the
